@@ -33,6 +33,7 @@ func checkC16(r *Report, p *Program) {
 	// nothing — not even the finalizer — is put on an object that is not selected (shared with C10)
 	r10_1(r, p, syncEntries(r, p, "R10.1"))
 	selectorBuildTable(r, p, "R16.8")
+	finalizerNameInjective(r, p, "R16.9")
 }
 
 func r16_1(r *Report, p *Program, e *syncEntry) {
